@@ -56,6 +56,9 @@ DEFS = {
     "some_spec()": "exists(i, 0, len(specs), keep(specs[i][0], specs[i][1]))",
     "some_unsat()": "exists(i, 0, len(specs), unsat_(specs[i][0], specs[i][1]))",
     "some_malformed()": "exists(i, 0, len(specs), malformed(specs[i][0], specs[i][1]))",
+    # a numeral int() refuses (beyond the interpreter's digit limit) makes the header malformed
+    "convertible(f, l)": "(f == '' or int_ok(f)) and (l == '' or int_ok(l))",
+    "some_too_long()": "exists(i, 0, len(specs), keep(specs[i][0], specs[i][1]) and not convertible(specs[i][0], specs[i][1]))",
 }
 
 PARSE_RANGE = Contract(
@@ -64,9 +67,11 @@ PARSE_RANGE = Contract(
     ghosts={"specs": List(Tup(Str, Str)), "x": Int},
     forall_ghosts=["x"],   # x is an arbitrary byte position: never assigned, so a proof for the symbol is a proof for all x
     requires=["max_size >= 0",
-              # A-re-1 + A-int-1: each group is "" or a numeral on which int() succeeds with a value >= 0
-              "forall(k, 0, len(specs), implies(specs[k][0] != '', int_ok(specs[k][0]) and int_of(specs[k][0]) >= 0)"
-              " and implies(specs[k][1] != '', int_ok(specs[k][1]) and int_of(specs[k][1]) >= 0))"],
+              # A-re-1 + A-int-1: each group is "" or a decimal numeral; int() of a numeral either succeeds with a value >= 0 or
+              # (more than 4300 digits) raises ValueError
+              "forall(k, 0, len(specs), implies(specs[k][0] != '' and int_ok(specs[k][0]), int_of(specs[k][0]) >= 0)"
+              " and implies(specs[k][1] != '' and int_ok(specs[k][1]), int_of(specs[k][1]) >= 0))"],
+    local_raises=["ValueError"],
     returns=List(Tup(Int, Int)),
     stubs={"re.findall": findall_stub},
     ufuncs={"int_of": ([Str], Int), "int_ok": ([Str], Bool)},
@@ -78,10 +83,10 @@ PARSE_RANGE = Contract(
         "shape.separated": "forall(k, 0, len(result) - 1, result[k][1] < result[k + 1][0])",
         "meaning.sound": "implies(cov(result, x), den(x))",
         "meaning.complete": "implies(den(x), cov(result, x))",
-        "accept.exact": "bytes_unit() and some_spec() and not some_unsat() and not some_malformed()",
+        "accept.exact": "bytes_unit() and some_spec() and not some_unsat() and not some_malformed() and not some_too_long()",
     },
     raises={
-        "MalformedRangeHeader": "not bytes_unit() or not some_spec() or some_malformed()",
+        "MalformedRangeHeader": "not bytes_unit() or not some_spec() or some_malformed() or some_too_long()",
         "RangeNotSatisfiable": "some_unsat()",
     },
     raises_ensures={
